@@ -676,7 +676,7 @@ Proof.
   unfold set_data_term. intros H. apply bind_ok in H as (ds & Hds & H).
   destruct ds as [|d0 [|d1 rest]]; [discriminate| |].
   - injection H as <-. exact Hds.
-  - apply bind_ok in H as (labs & _ & H). injection H as <-. exact Hds.
+  - apply bind_ok in H as (labs & _ & H). destruct (existsb _ labs); [discriminate|]. injection H as <-. exact Hds.
 Qed.
 
 (** For a term made of plain components no well-formedness hypothesis is left: the labelled row
